@@ -50,10 +50,12 @@ def shapes(ko: str, ki: str, T) -> List[Any]:
         ["S", [a, I(ki, [b]), c]],
         I(ko, [I(ki, [a]), I(ki, [b]), I(ki, [c])]),
         I(ko, [I(ki, [I(ki, [a]), b, c])]),
+        I(ko, [I(ki, [a, b]), I(ki, [c])]),
+        I(ko, [I(ki, [a]), I("single", [I(ki, [b, c])])]),
     ]
 
 
-NSHAPES = 16
+NSHAPES = 18
 X, Y, Z = ["F", 3], ["F", 4], ["F", 5]
 BEH_ABC = [
     ["none"], ["prune"], ["empty"], ["rep1", X], ["repseq", [X, Y]],
@@ -120,7 +122,16 @@ def judge(tree: Any, beh: Dict[int, Any]) -> Dict[str, Any]:
                 out.update(ok=False, why="M3: insert-before changed the remainder", inserter=a,
                            expected=[exp, r2["leaves"]], got=[real["frames"], real["leaves"]])
                 return out
-    # two readings
+    # the depth reading decides every input
+    f3, l3 = D.ref_depth(tree, beh)
+    if real["frames"] != f3 or D.norm_leaves(real["leaves"]) != D.norm_leaves(l3):
+        out.update(ok=False, why="result differs from the depth-based reference interpretation",
+                   expected=[f3, D.norm_leaves(l3)], got=[real["frames"], real["leaves"]])
+        f1, l1 = D.ref_flat(tree, beh)
+        f2, l2 = D.ref_scope(tree, beh)
+        out["ambiguous"] = f1 != f2 or D.norm_leaves(l1) != D.norm_leaves(l2)
+        return out
+    # the two loose readings of the documentation (kept as a cross-check of the reference itself)
     f1, l1 = D.ref_flat(tree, beh)
     f2, l2 = D.ref_scope(tree, beh)
     if f1 != f2 or D.norm_leaves(l1) != D.norm_leaves(l2):
